@@ -2,7 +2,7 @@
    the reported submatches.  Statements only. *)
 From Coq Require Import List Bool Arith.
 Import ListNotations.
-From DV Require Import GrepSections GrepSectionsFacts GrepTabs.
+From DV Require Import Text GrepSections GrepSectionsFacts GrepTabs GrepColour GrepColourFacts GenGrep.
 
 (* the style sections of a hit always concatenate to its code — whatever offsets rg reports,
    no byte of the line is dropped, duplicated or reordered *)
@@ -24,6 +24,30 @@ Theorem C16_leading_tabs_exact : forall w k rest se, 1 <= w -> Forall (fun b => 
   span (expand_tabs w (repeat TAB k ++ rest)) (shift_submatch w (repeat TAB k ++ rest) se) =
   span (repeat TAB k ++ rest) se.
 Proof. exact shifted_span_exact. Qed.
+
+(* coloured grep output (git's palette: path magenta, separators cyan, line number green) is read
+   exactly.  The regex of the current tree is the one the direct parser implements (checked from
+   the source on every run) ... *)
+Theorem C16_code_colour_regex : colour_regex_is_modelled = true.
+Proof. reflexivity. Qed.
+
+(* ... with a line number, path / kind / number / code are read back exactly — for every path
+   without an escape character (colons, dashes, digits, spaces, no extension: anything) and for
+   every code whatsoever ... *)
+Theorem C16_coloured_line_numbered : forall path s ds code,
+  forallb not_esc path = true -> ds <> [] -> forallb is_digit ds = true ->
+  parse (print path s (Some ds) code) = Some (path, s, Some ds, code).
+Proof. exact parse_print_numbered. Qed.
+
+(* ... and without a line number as well, unless the code itself begins with a coloured line
+   number look-alike (code that starts with any character but ESC, or is empty, never does) *)
+Theorem C16_coloured_line_plain : forall path s code,
+  forallb not_esc path = true -> parse_number s code = None ->
+  parse (print path s None code) = Some (path, s, None, code).
+Proof. exact parse_print_plain. Qed.
+
+Theorem C16_plain_code_is_no_number : forall s c r, c <> ESC -> parse_number s (c :: r) = None.
+Proof. exact parse_number_plain_code. Qed.
 
 Example C16_example :
   let l := [9; 9; 102; 111; 111; 40; 120; 41] in
